@@ -31,7 +31,11 @@ handler raised, no fault callback on either side.  Uses C07 (the stream), C09 (t
 depend on the chunk length: the sender computes it with its segment length, the receiver with 4096)
 and C17 (filestore).
 
-NOT covered by a theorem: the composed run in acknowledged mode (each half is proved) and arbitrary fair pacing (several
+`C02_end_to_end_ack`: the same composition in acknowledged mode, including the closing handshake
+(ACK (EOF) back to the sender, Finished PDU to the sender, ACK (Finished) to the receiver): both idle,
+file byte-identical, one successful Transaction-Finished indication on each side, no fault.
+
+NOT covered by a theorem: arbitrary fair pacing (several
 PDUs queued before a `state_machine` call); these are explored end to end on implementation and
 model (randomised pacing over the whole configuration cross product), see MANIFEST / evidence.
 -/
@@ -1014,5 +1018,321 @@ theorem C02_end_to_end_unack (envS : Source.Env) (envD : Dest.Env) (s : Source.S
         d0.inds.filter isFinished := by simp [afterMd, isFinished]
     rw [h1]
     cases envD.cfg.indEofRecv <;> cases envD.cfg.indFinished <;> simp [isFinished]
+
+/-! ## The two models composed, acknowledged mode -/
+
+def eofAckP (p : Source.Params) (now ms : Nat) : Source.Params :=
+  { p with ackTimer := some ⟨now, ms⟩, ackCounter := 0 }
+
+def condS (s : Source.SrcSt) : Source.SrcSt := { s with p := { s.p with condCodeEof := some ccNoError } }
+
+def waitFinS (s : Source.SrcSt) : Source.SrcSt := { s with step := .WAITING_FOR_FINISHED }
+
+def afterFinS (s : Source.SrcSt) (fp : FinishedParams) : Source.SrcSt :=
+  { s with step := .SENDING_ACK_OF_FINISHED, p := finSrcP s.p fp,
+           queue := [Source.mkAck s.p.conf dtFinished fp.cond tsActive], numReady := s.numReady + 1 }
+
+/-- sender, acknowledged mode, after the call that queued the EOF PDU -/
+def afterEofS (env : Source.Env) (s : Source.SrcSt) (rc : RemoteCfg) (cks : List UInt8) (tid : Tid) (n : Nat) :
+    Source.SrcSt :=
+  { s with step := .WAITING_FOR_EOF_ACK, p := eofAckP s.p env.now rc.ackMs,
+           queue := [Source.mkEof s.p.conf ccNoError cks n], numReady := s.numReady + 1,
+           inds := s.inds ++ (if env.cfg.indEofSent then [Ind.eofSent tid] else []) }
+
+/-- the EOF call in acknowledged mode, exact resulting state (cf. `C07_eof_call`) -/
+theorem C07_eof_call_ack (env : Source.Env) (s : Source.SrcSt) (req : Source.PutReq) (rc : RemoteCfg) (src : String)
+    (F cks : List UInt8) (tid : Tid)
+    (hst : s.state = .busy) (hstep : s.step = .SENDING_FILE_DATA) (hq : s.queue = [])
+    (hreq : s.putReq = some req) (hsrc : req.src = some src) (hmo : s.p.metadataOnly = false)
+    (hfile : s.fs.get src = some (.file F)) (hsize : s.p.fileSize = F.length)
+    (hprog : s.p.progress = s.p.fileSize) (hrc : s.p.remoteCfg = some rc) (htid : s.p.tid = some tid)
+    (hcks : Checksum.calcChecksum (Checksum.CksType.ofNat rc.cks) F F.length s.p.segmentLen = .ok cks)
+    (hnull : Checksum.CksType.ofNat rc.cks ≠ .null) (hlen : cks.length = 4)
+    (hack : rc.ackMs ≠ 0) (hm : s.p.conf.mode = .ack) :
+    Source.stateMachine env none s =
+      .ok () (afterEofS env (condS s) rc cks tid F.length) := by
+  have hc : Fs.calcChecksum s.fs (Checksum.CksType.ofNat rc.cks) src F.length s.p.segmentLen = .ok cks := by
+    simp [Fs.calcChecksum, hnull, hfile, hcks]
+  cases hi : env.cfg.indEofSent <;>
+  msimp [Source.stateMachine, Source.fsmNonIdle, Source.fsmAdvancementAfterPacketsWereSent,
+    Source.fsmFromSendingFileData, Source.sendingFileDataFsm, Source.handleRetransmission,
+    Source.fsmFromSendingEof, Source.fsmFromWaitingForEofAck, Source.fsmFromWaitingForFinished,
+    Source.fsmFromNoticeOfCompletion,
+    Source.checksumCalculation, Source.prepareEofPdu, Source.handleEofSent, Source.startPositiveAckProcedure,
+    Source.handleWaitingForAck, Source.handlePositiveAckProcedures,
+    Source.transmissionMode, Timer.timedOut,
+    Source.getP, Source.modP, Source.addPacket, Source.emitInd, hst, hstep, hq, hreq, hsrc, hmo, hsize, hprog, hrc,
+    htid, hc, hlen, hm, hi, hack, afterEofS, eofAckP, condS]
+
+open Source.C07 Source.C19 in
+/-- **The sender's whole run in acknowledged mode** (any admissible ACK (EOF) and Finished PDU coming
+back): Metadata, the `k` tiles, the EOF; the ACK (EOF) moves it on; the Finished PDU is recorded and
+acknowledged with exactly one ACK (Finished); after its retrieval the next call reports the
+transaction to the user with the Finished PDU's values and the sender is idle.  No call raises. -/
+theorem C02_sender_ack_run (envS : Source.Env) (s : Source.SrcSt)
+    (req : Source.PutReq) (rcS : RemoteCfg) (src dst : String) (F crc : List UInt8) (seg k : Nat)
+    (hA hF' : Hdr) (cA tA : Nat) (fp : FinishedParams) (now2 now3 now4 : Nat)
+    (hst : s.state = .busy) (hstep : s.step = .IDLE) (hq : s.queue = []) (hreq : s.putReq = some req)
+    (hpmo : s.p.metadataOnly = false) (hsrc : req.src = some src) (hdst : req.dst = some dst)
+    (hfile : s.fs.get src = some (.file F)) (hF : F ≠ []) (hprog : s.p.progress = 0)
+    (hrc : s.p.remoteCfg = some rcS) (hbits : s.prov.bits = 8 ∨ s.prov.bits = 16 ∨ s.prov.bits = 32)
+    (hseg : Source.segLenOf rcS (startConf envS req rcS s (decide (F.length > 4294967295))) = some seg)
+    (hseg0 : 0 < seg) (hmode : s.p.conf.mode = .ack) (hct : s.p.checkTimer = none)
+    (hk : (k - 1) * seg < F.length ∧ F.length ≤ k * seg)
+    (hcks : Checksum.calcChecksum (Checksum.CksType.ofNat rcS.cks) F F.length seg = .ok crc)
+    (hnull : Checksum.CksType.ofNat rcS.cks ≠ .null) (hlen : crc.length = 4) (hack : rcS.ackMs ≠ 0)
+    -- the PDUs coming back are addressed to this transaction
+    (hAdir : hA.dir = .toSend) (hAsrc : hA.src.val = envS.cfg.entityId.val) (hAdst : hA.dst.val = rcS.entityId.val)
+    (hAseq : hA.seq.val = s.prov.next)
+    (hFdir : hF'.dir = .toSend) (hFsrc : hF'.src.val = envS.cfg.entityId.val) (hFdst : hF'.dst.val = rcS.entityId.val)
+    (hFseq : hF'.seq.val = s.prov.next) :
+    let conf := startConf envS req rcS s (decide (F.length > 4294967295))
+    let tid : Tid := ⟨envS.cfg.entityId, ⟨s.prov.next, s.prov.bits / 8⟩⟩
+    ∃ s3 s4 s5 s6,
+      rounds envS (1 + k + 1) s = some
+        ([Source.mkMd conf s.p.closure rcS.cks F.length (some src) (some dst) (some (req.msgs.getD []))] ++
+          (List.range k).map (tile conf F seg 0) ++ [Source.mkEof conf ccNoError crc F.length], s3) ∧
+      Source.stateMachine ⟨envS.cfg, now2⟩ (some (.ack hA dtEof cA tA)) s3 = .ok () s4 ∧ s4.queue = [] ∧
+      Source.stateMachine ⟨envS.cfg, now3⟩ (some (.fin hF' fp)) s4 = .ok () s5 ∧
+      s5.queue = [Source.mkAck conf dtFinished fp.cond tsActive] ∧
+      Source.stateMachine ⟨envS.cfg, now4⟩ none (Source.C07.drained s5) = .ok () s6 ∧
+      s6.state = .idle ∧ s6.queue = [] ∧ s6.fs = s.fs ∧ s6.flts = s.flts ∧
+      s6.inds.filter isFinished = s.inds.filter isFinished ++
+        (if envS.cfg.indFinished then [.finished (some tid) fp] else []) := by
+  intro conf tid
+  have hk1 : 1 ≤ k := by
+    rcases Nat.eq_zero_or_pos k with h0 | h0
+    · subst h0
+      have : F.length = 0 := by have := hk.2; omega
+      exact absurd (List.eq_nil_of_length_eq_zero this) hF
+    · exact h0
+  obtain ⟨hcall1, hS1⟩ := C07_metadata_call envS s req rcS src dst F seg hst hstep hq hreq hpmo hsrc hdst hfile hF
+    hprog hrc hbits hseg hseg0
+  obtain ⟨s2, hr2, hp2, hc2, hsg2, hst2, hS2, hFr2⟩ := C07_stream_tiles envS req src F k _ hS1
+    (Or.inr (by simp only [Source.C07.drained, afterMetadata, hprog, Nat.zero_add]; exact hk.1))
+  have hstep2 : s2.step = .SENDING_FILE_DATA := hst2.resolve_left (by omega)
+  have hprog2 : s2.p.progress = s2.p.fileSize := by
+    rw [hp2, hS2.hsize]; simp only [Source.C07.drained, afterMetadata, hprog, Nat.zero_add]
+    exact Nat.min_eq_left hk.2
+  simp only [Frame] at hFr2
+  obtain ⟨f1, f2, f3, f4, f5, f6, f7, f8, f9, f10, f11, f12, f13, f14, f15, f16⟩ := hFr2
+  have hmode2 : s2.p.conf.mode = .ack := by
+    rw [hc2]; simp [Source.C07.drained, afterMetadata, startConf, hmode]
+  have hcall3 := C07_eof_call_ack envS s2 req rcS src F crc tid hS2.hbusy hstep2 hS2.hqueue hS2.hreq hS2.hsrc
+    hS2.hnotMo hS2.hfile hS2.hsize hprog2 (by rw [f1]; simp [Source.C07.drained, afterMetadata, hrc])
+    (by rw [f2]; simp [Source.C07.drained, afterMetadata, tid])
+    (by rw [hsg2]; simpa [Source.C07.drained, afterMetadata] using hcks) hnull hlen hack hmode2
+  -- the state after the EOF call, drained
+  let s3 := Source.C07.drained (afterEofS envS (condS s2) rcS crc tid F.length)
+  have hconf3 : s3.p.conf = conf := by
+    show s2.p.conf = conf
+    rw [hc2]; simp [Source.C07.drained, afterMetadata, conf]
+  have hrc3 : s3.p.remoteCfg = some rcS := by
+    show s2.p.remoteCfg = some rcS
+    rw [f1]; simp [Source.C07.drained, afterMetadata, hrc]
+  have hadm : AdmissibleS ⟨envS.cfg, now2⟩ s3 rcS hA :=
+    { hdir := hAdir, hsrc := hAsrc, hrc := hrc3, hdst := hAdst,
+      hseq := by rw [hconf3]; simpa [conf, startConf] using hAseq,
+      hmode := by rw [hconf3]; simp [conf, startConf, hmode] }
+  have hreq3 : s3.putReq = some req := by
+    show s2.putReq = some req
+    exact hS2.hreq
+  have hct3 : s3.p.checkTimer = none := by
+    show s2.p.checkTimer = none
+    rw [f15]; simp [Source.C07.drained, afterMetadata, hct]
+  have h4 := C02_source_eof_acked ⟨envS.cfg, now2⟩ s3 rcS hA cA tA req hadm hS2.hbusy rfl rfl hreq3 hct3
+  -- the Finished PDU
+  have hadm5 : AdmissibleS ⟨envS.cfg, now3⟩ (waitFinS s3) rcS hF' :=
+    { hdir := hFdir, hsrc := hFsrc, hrc := hrc3, hdst := hFdst,
+      hseq := by show hF'.seq.val = s3.p.conf.seq.val; rw [hconf3]; simpa [conf, startConf] using hFseq,
+      hmode := by show s3.p.conf.mode = .ack; rw [hconf3]; simp [conf, startConf, hmode] }
+  have h5 := C02_source_finished ⟨envS.cfg, now3⟩ (waitFinS s3) rcS hF' fp req hadm5
+    hS2.hbusy rfl rfl hreq3
+  -- completion
+  have h6 := C02_source_completion ⟨envS.cfg, now4⟩
+    (Source.C07.drained (afterFinS (waitFinS s3) fp))
+    fp tid req hS2.hbusy rfl rfl hreq3 rfl
+    (by show s2.p.tid = some tid; rw [f2]; simp [Source.C07.drained, afterMetadata, tid])
+  have hrun : rounds envS (1 + k + 1) s = some
+      ([Source.mkMd conf s.p.closure rcS.cks F.length (some src) (some dst) (some (req.msgs.getD []))] ++
+        (List.range k).map (tile conf F seg 0) ++ [Source.mkEof conf ccNoError crc F.length], s3) := by
+    rw [rounds_add envS (1 + k) 1 s, rounds_add envS 1 k s]
+    simp only [rounds, round, hcall1, hr2, hcall3]
+    simp [Source.C07.drained, afterMetadata, afterEofS, hprog, hc2, conf, s3, condS]
+  refine ⟨s3, _, _, _, hrun, h4, rfl, h5, ?_, h6, rfl, rfl, ?_, ?_, ?_⟩
+  · have : (waitFinS s3).p.conf = conf := hconf3
+    rw [this]
+  · simp [Source.C07.drained, afterFinS, waitFinS, afterEofS, condS, f6, afterMetadata, s3]
+  · simp [Source.C07.drained, afterFinS, waitFinS, afterEofS, condS, f5, afterMetadata, s3]
+  · simp only [Source.C07.drained, afterFinS, waitFinS, afterEofS, condS, s3, f4, afterMetadata, List.filter_append]
+    cases envS.cfg.indEofSent <;> cases envS.cfg.indFinished <;> simp [isFinished]
+
+def idleOf (d : Dest.DestSt) : Dest.DestSt := { d with state := .idle, step := .IDLE, p := {} }
+
+/-- the receiver consumes the sender's tiles (acknowledged mode) -/
+theorem receiver_takes_tiles_ack (env : Dest.Env) (conf cd : Hdr) (rc : RemoteCfg) (t : Tid) (cks : Nat)
+    (dst : String) (F : List UInt8) (seg : Nat) (hseg : 0 < seg)
+    (ha : AdmissibleA env rc { conf with dir := .toRecv }) :
+    ∀ (k : Nat) (d : Dest.DestSt), (k = 0 ∨ (k - 1) * seg < F.length) →
+      ReceivingA d dst [] rc t cks cd →
+      ∃ d', feedPdus env ((List.range k).map (Source.C07.tile conf F seg 0)) d = some d' ∧
+        ReceivingA d' dst (F.take (k * seg)) rc t cks cd ∧
+        (∀ q, q ≠ dst → d'.fs.get q = d.fs.get q) ∧
+        d'.inds.filter isFinished = d.inds.filter isFinished := by
+  intro k
+  induction k with
+  | zero => intro d _ hr; exact ⟨d, by simp [feedPdus], by simpa using hr, fun _ _ => rfl, rfl⟩
+  | succ k ih =>
+    intro d hk hr
+    have hklt : k * seg < F.length := by simpa using hk
+    have hk' : k = 0 ∨ (k - 1) * seg < F.length := by
+      by_cases h0 : k = 0
+      · exact Or.inl h0
+      · right
+        have : (k - 1) * seg ≤ k * seg := Nat.mul_le_mul_right _ (by omega)
+        omega
+    obtain ⟨d1, hf, hR, hother, hfin⟩ := ih d hk' hr
+    have hlen : (F.take (k * seg)).length = k * seg := by simp [List.length_take]; omega
+    have hdata : (F.drop (k * seg)).take seg ≠ [] := by
+      intro h
+      have := congrArg List.length h
+      simp [List.length_take, List.length_drop] at this
+      omega
+    have htile := C02_tile_ack env d1 dst (F.take (k * seg)) ((F.drop (k * seg)).take seg) rc t cks cd
+      { conf with dir := .toRecv } hR ha hdata
+    rw [hlen] at htile
+    obtain ⟨hcall, hR'⟩ := htile
+    refine ⟨afterTileA d1 dst (F.take (k * seg)) ((F.drop (k * seg)).take seg) env t, ?_, ?_, ?_, ?_⟩
+    · rw [List.range_succ, List.map_append, feedPdus_append, hf]
+      simp only [Option.bind, List.map_cons, List.map_nil, feedPdus, Source.C07.tile, Source.mkFd,
+        Nat.zero_add, hcall]
+    · have : F.take (k * seg) ++ (F.drop (k * seg)).take seg = F.take ((k + 1) * seg) := by
+        rw [Nat.add_mul, Nat.one_mul, List.take_add]
+      rw [← this]; exact hR'
+    · intro q hq
+      simp only [afterTileA]
+      rw [Fs.C17.get_set_other _ _ _ _ hq]
+      exact hother q hq
+    · rw [← hfin]
+      simp only [afterTileA]
+      split <;> simp [isFinished]
+
+open Source.C07 Source.C19 in
+/-- **End to end over a fault-free link, acknowledged mode: the two models composed.**  The sender
+(put request accepted) is called and drained `k + 2` times and all its PDUs are handed to the idle
+receiver in order; the receiver's ACK (EOF) goes back to the sender; the receiver's next call
+verifies and emits the Finished PDU, which goes to the sender; the sender's ACK (Finished) goes to
+the receiver; one more call of the sender.  No call of either handler raises; both end idle; the
+destination file is byte-identical to the source file; both users get exactly one
+Transaction-Finished indication reporting No error / Data complete / File retained; no fault
+callback on either side.  For every file content and size, segment length, header configuration,
+closure setting and CRC-32 / CRC-32C / modular checksum type. -/
+theorem C02_end_to_end_ack (envS : Source.Env) (envD : Dest.Env) (s : Source.SrcSt) (d0 : Dest.DestSt)
+    (req : Source.PutReq) (rcS rcD : RemoteCfg) (src dst : String) (F crc : List UInt8) (seg k : Nat)
+    (now2 now3 now4 nowD2 nowD3 : Nat)
+    (hst : s.state = .busy) (hstep : s.step = .IDLE) (hq : s.queue = []) (hreq : s.putReq = some req)
+    (hpmo : s.p.metadataOnly = false) (hsrc : req.src = some src) (hdst : req.dst = some dst)
+    (hfile : s.fs.get src = some (.file F)) (hF : F ≠ []) (hprog : s.p.progress = 0)
+    (hrc : s.p.remoteCfg = some rcS) (hrcid : rcS.entityId.val = req.destId.val)
+    (hbits : s.prov.bits = 8 ∨ s.prov.bits = 16 ∨ s.prov.bits = 32)
+    (hseg : Source.segLenOf rcS (startConf envS req rcS s (decide (F.length > 4294967295))) = some seg)
+    (hseg0 : 0 < seg) (hmode : s.p.conf.mode = .ack) (hct : s.p.checkTimer = none)
+    (hk : (k - 1) * seg < F.length ∧ F.length ≤ k * seg)
+    (hcks : Checksum.calcChecksum (Checksum.CksType.ofNat rcS.cks) F F.length seg = .ok crc)
+    (hnull : Checksum.CksType.ofNat rcS.cks ≠ .null) (hlen : crc.length = 4) (hack : rcS.ackMs ≠ 0)
+    (ha : AdmissibleA envD rcD { startConf envS req rcS s (decide (F.length > 4294967295)) with dir := .toRecv })
+    (hackD : rcD.ackMs ≠ 0)
+    (hidle : d0.state = .idle) (hdq : d0.queue = []) (hdr : d0.numReady = 0) (hrej : d0.rejects = [])
+    (hfl : d0.flts = []) (hnd : Fs.isDir d0.fs dst = false)
+    (hok : (∃ old, d0.fs.get dst = some (.file old)) ∨
+           (Fs.exists' d0.fs dst = false ∧ Fs.parentIsDir d0.fs dst = true)) :
+    let conf := startConf envS req rcS s (decide (F.length > 4294967295))
+    let fpOk : FinishedParams := ⟨ccNoError, dcComplete, fsRetained, none⟩
+    ∃ pdus s3 d3 ackEof s4 d4 fin s5 ackFin d5 s6,
+      -- sender: Metadata, tiles, EOF; receiver takes them and acknowledges the EOF
+      rounds envS (1 + k + 1) s = some (pdus, s3) ∧ feedPdus envD pdus d0 = some d3 ∧ d3.queue = [ackEof] ∧
+      Source.stateMachine ⟨envS.cfg, now2⟩ (some ackEof) s3 = .ok () s4 ∧ s4.queue = [] ∧
+      -- receiver: verification, Finished PDU; sender acknowledges it
+      Dest.stateMachine ⟨envD.cfg, nowD2⟩ none (drained d3) = .ok () d4 ∧ d4.queue = [fin] ∧
+      Source.stateMachine ⟨envS.cfg, now3⟩ (some fin) s4 = .ok () s5 ∧ s5.queue = [ackFin] ∧
+      Dest.stateMachine ⟨envD.cfg, nowD3⟩ (some ackFin) (drained d4) = .ok () d5 ∧
+      Source.stateMachine ⟨envS.cfg, now4⟩ none (Source.C07.drained s5) = .ok () s6 ∧
+      -- outcome
+      s6.state = .idle ∧ d5.state = .idle ∧ s6.queue = [] ∧ d5.queue = [] ∧
+      d5.fs.get dst = some (.file F) ∧ (∀ q, q ≠ dst → d5.fs.get q = d0.fs.get q) ∧ s6.fs = s.fs ∧
+      d5.flts = [] ∧ s6.flts = s.flts ∧
+      s6.inds.filter isFinished = s.inds.filter isFinished ++
+        (if envS.cfg.indFinished then [.finished (some ⟨envS.cfg.entityId, ⟨s.prov.next, s.prov.bits / 8⟩⟩) fpOk]
+         else []) ∧
+      d5.inds.filter isFinished = d0.inds.filter isFinished ++
+        (if envD.cfg.indFinished then [.finished (some ⟨conf.src, conf.seq⟩) fpOk] else []) := by
+  intro conf fpOk
+  -- the receiver's PDU headers as the sender sees them
+  let cd : Hdr := ⟨.toSend, conf.mode, conf.crc, conf.large, conf.src, conf.dst, conf.seq⟩
+  have hsrcv : conf.src.val = envS.cfg.entityId.val := by simp [conf, startConf]
+  have hdstv : conf.dst.val = rcS.entityId.val := by simp [conf, startConf, hrcid]
+  have hseqv : conf.seq.val = s.prov.next := by simp [conf, startConf]
+  obtain ⟨s3, s4, s5, s6, hrun, h4, hq4, h5, hq5, h6, hi6, hq6, hfs6, hfl6, hin6⟩ :=
+    C02_sender_ack_run envS s req rcS src dst F crc seg k cd cd ccNoError tsActive fpOk now2 now3 now4
+      hst hstep hq hreq hpmo hsrc hdst hfile hF hprog hrc hbits hseg hseg0 hmode hct hk hcks hnull hlen hack
+      rfl hsrcv hdstv hseqv rfl hsrcv hdstv hseqv
+  -- the receiver
+  obtain ⟨hmd, hR1⟩ := C02_metadata_ack envD d0 { conf with dir := .toRecv } rcD s.p.closure rcS.cks F.length src dst
+    (some (req.msgs.getD [])) ha hidle hdq hdr hrej hfl hnd hok
+  obtain ⟨d2, hfeed2, hR2, hother2, hfin2⟩ := receiver_takes_tiles_ack envD conf _ rcD _ rcS.cks dst F seg hseg0 ha k _
+    (Or.inr hk.1) hR1
+  rw [List.take_of_length_le hk.2] at hR2
+  have heof := C02_eof_ack envD d2 dst F crc rcD _ rcS.cks _ { conf with dir := .toRecv } hR2 ha
+  have hA : Acked (drained (afterEofA envD d2 ⟨conf.src, conf.seq⟩ crc F.length)) dst F crc rcD ⟨conf.src, conf.seq⟩
+      rcS.cks cd :=
+    { hbusy := hR2.hbusy, hstep := rfl, hready := rfl, hqueue := rfl, hconf := hR2.hconf, hmode := hR2.hmode,
+      hname := hR2.hname, hfile := hR2.hfile, hprog := hR2.hprog, hcrc := rfl, hrc := hR2.hrc, htid := hR2.htid,
+      hcks := hR2.hcks, hcancel := hR2.hcancel, hmo := hR2.hmo, hfin := hR2.hfin, htrk := hR2.htrk, hmm := hR2.hmm }
+  have hver : rcS.cks = 15 ∨ Fs.calcChecksum (drained (afterEofA envD d2 ⟨conf.src, conf.seq⟩ crc F.length)).fs
+      (Checksum.CksType.ofNat rcS.cks) dst F.length 4096 = .ok crc := by
+    right
+    have := Checksum.C09.C09_chunk_length_irrelevant (Checksum.CksType.ofNat rcS.cks) F F.length seg 4096
+      (by omega) (by omega)
+    have hf : (drained (afterEofA envD d2 ⟨conf.src, conf.seq⟩ crc F.length)).fs.get dst = some (.file F) := hR2.hfile
+    simp [Fs.calcChecksum, hnull, hf, ← this, hcks]
+  have hv := C02_verify_ack ⟨envD.cfg, nowD2⟩ _ dst F crc rcD _ rcS.cks _ hA hackD hver
+  have hfa := C02_finished_acked ⟨envD.cfg, nowD3⟩
+    (drained (afterVerifyA ⟨envD.cfg, nowD2⟩ (drained (afterEofA envD d2 ⟨conf.src, conf.seq⟩ crc F.length))
+      ⟨conf.src, conf.seq⟩ rcD))
+    rcD { conf with dir := .toRecv } fpOk.cond tsActive
+    { hdir := rfl, hdst := ha.hdst, hsrc := ha.hsrc, hmode := ha.hmode } hR2.hbusy rfl rfl
+    (by simp [drained, afterVerifyA, finP, afterEofA, eofP, hR2.hconf]; exact ha.hmode)
+  have hfeed : feedPdus envD
+      ([Source.mkMd conf s.p.closure rcS.cks F.length (some src) (some dst) (some (req.msgs.getD []))] ++
+        (List.range k).map (tile conf F seg 0) ++ [Source.mkEof conf ccNoError crc F.length]) d0 =
+      some (afterEofA envD d2 ⟨conf.src, conf.seq⟩ crc F.length) := by
+    rw [feedPdus_append, feedPdus_append]
+    simp only [feedPdus, Source.mkMd, Source.mkEof, hmd, Option.bind, hfeed2, heof]
+  obtain ⟨d5, hd5, hd5s, hd5q, hd5fs, hd5fl, hd5i⟩ : ∃ d5,
+      Dest.stateMachine ⟨envD.cfg, nowD3⟩ (some (Source.mkAck conf dtFinished fpOk.cond tsActive))
+        (drained (afterVerifyA ⟨envD.cfg, nowD2⟩ (drained (afterEofA envD d2 ⟨conf.src, conf.seq⟩ crc F.length))
+          ⟨conf.src, conf.seq⟩ rcD)) = .ok () d5 ∧
+      d5.state = .idle ∧ d5.queue = [] ∧ d5.fs = d2.fs ∧ d5.flts = d2.flts ∧
+      d5.inds = (afterVerifyA ⟨envD.cfg, nowD2⟩ (drained (afterEofA envD d2 ⟨conf.src, conf.seq⟩ crc F.length))
+          ⟨conf.src, conf.seq⟩ rcD).inds :=
+    ⟨idleOf (drained (afterVerifyA ⟨envD.cfg, nowD2⟩ (drained (afterEofA envD d2 ⟨conf.src, conf.seq⟩ crc F.length))
+          ⟨conf.src, conf.seq⟩ rcD)), by simpa [Source.mkAck, dtFinished, idleOf] using hfa, rfl, rfl, rfl, rfl, rfl⟩
+  refine ⟨_, s3, _, Pdu.ack cd dtEof ccNoError tsActive, s4, _, Pdu.fin cd fpOk, s5,
+    Source.mkAck conf dtFinished fpOk.cond tsActive, d5, s6, hrun, hfeed, ?_, h4, hq4, hv, ?_, h5, hq5, hd5, h6,
+    hi6, hd5s, hq6, hd5q, ?_, ?_, hfs6, ?_, hfl6, hin6, ?_⟩
+  · simp [afterEofA, Dest.mkAck, hR2.hconf, dtEof, dtFinished, cd]
+  · simp [afterVerifyA, drained, afterEofA, eofP, Dest.mkFin, hR2.hconf, cd, fpOk]
+  · rw [hd5fs]; exact hR2.hfile
+  · intro q hq'
+    rw [hd5fs, hother2 q hq']
+    simp [afterMdA, Fs.C17.get_set_other _ _ _ _ hq']
+  · rw [hd5fl]; exact hR2.hflts
+  · rw [hd5i]
+    simp only [drained, afterVerifyA, afterEofA, List.filter_append, hfin2]
+    have h1 : (afterMdA envD d0 { conf with dir := .toRecv } rcD s.p.closure rcS.cks F.length src dst
+        (some (req.msgs.getD []))).inds.filter isFinished = d0.inds.filter isFinished := by
+      simp [afterMdA, isFinished]
+    rw [h1]
+    cases envD.cfg.indEofRecv <;> cases envD.cfg.indFinished <;> simp [isFinished, fpOk]
 
 end Cfdp.C02
